@@ -1,4 +1,235 @@
-/- C14 — model and specification (stub; see HACKING.md) -/
+/-
+  C14 — grow(): the asymmetric unit plus exact, bonded symmetry images.
+
+  Model of
+    SDM.collect_needed_symmetry   (sdm.py)   -> `collectNeeded`
+    SDM.packer                    (sdm.py)   -> `packer`
+    Shelxfile.grow                (shelx.py) -> `grow` (= packer on the collected list)
+  generic in the number type `K` (the driver runs `Float`, witnesses run `Rat`).  Everything metric is
+  handed in through `Kernel` (`SDM.vector_length`, `math.floor`, the literal thresholds — the latter are
+  regenerated from the source, `Extracted/C14Consts.lean`).  The SDM items and the molecule numbers
+  (`calc_sdm`, `calc_molindex`) are inputs: their correctness is property C13.
+
+  Specification (code independent): `IsImageOf`, `Coincide`, `shownOriginals`, `imagePresent`.
+-/
 namespace Shelx.C14
+
+structure V3 (K : Type) where
+  x : K
+  y : K
+  z : K
+deriving Repr, BEq, DecidableEq
+
+/-- one symmetry operator of `Shelxfile.symmcards`: integer rotation rows, translation -/
+structure Op (K : Type) where
+  r1 : V3 Int
+  r2 : V3 Int
+  r3 : V3 Int
+  t : V3 K
+deriving Repr
+
+structure Atom (K : Type) where
+  src : Nat          -- position of the (original) atom in `atoms.all_atoms`; an image keeps it
+  sfac : Nat
+  pos : V3 K
+  part : Int
+  sof : K
+  u : List K
+  qpeak : Bool
+  mol : Int          -- Atom.molindex
+  an : Nat           -- atomic number
+  isH : Bool
+  symmgen : Bool
+deriving Repr, DecidableEq
+
+/-- the numeric kernel: `SDM.vector_length`, `floor`, int -> number, and the literals of the code -/
+structure Kernel (K : Type) where
+  ofInt : Int → K
+  floor : K → Int
+  vlen : K → K → K → K
+  half : K              -- 0.5
+  dupLim : K            -- packer: `length < 0.2`
+  window : K            -- collect: `sdm_item.dist + 0.2`
+  eps : K               -- collect: `dk > 0.001`
+  hh : K                -- collect: `dddd = 1.8` for H...H
+  molLow : Int          -- collect: `molindex < 1`
+  molLimit : Option Int -- collect: `molindex > 6`  (none: no upper limit in the source)
+
+/-- entry of `need_symm` exactly as the code stores it: `[n + 1, 5 - floor_d[0], 5 - floor_d[1], 5 - floor_d[2], molindex]` -/
+structure Need where
+  n : Int
+  h : Int
+  k : Int
+  l : Int
+  group : Int
+deriving Repr, DecidableEq
+
+structure SdmItem (K : Type) where
+  atom1 : Atom K
+  atom2 : Atom K
+  dist : K
+  covalent : Bool
+deriving DecidableEq
+
+section
+variable {K : Type} [Add K] [Sub K] [Mul K] [LT K] [LE K] [DecidableLT K] [DecidableLE K]
+
+/-! ### Model -/
+
+/-- `Array(frac) * symop.matrix + symop.trans` (row vector times the transposed matrix = rows of the SYMM card) -/
+def applyOp (ker : Kernel K) (op : Op K) (p : V3 K) : V3 K :=
+  { x := p.x * ker.ofInt op.r1.x + p.y * ker.ofInt op.r1.y + p.z * ker.ofInt op.r1.z + op.t.x
+    y := p.x * ker.ofInt op.r2.x + p.y * ker.ofInt op.r2.y + p.z * ker.ofInt op.r2.z + op.t.y
+    z := p.x * ker.ofInt op.r3.x + p.y * ker.ofInt op.r3.y + p.z * ker.ofInt op.r3.z + op.t.z }
+
+/-- `... + Array([h, k, l])` -/
+def shift (ker : Kernel K) (p : V3 K) (h k l : Int) : V3 K :=
+  { x := p.x + ker.ofInt h, y := p.y + ker.ofInt k, z := p.z + ker.ofInt l }
+
+/-- Python list indexing with negative wrap-around; `none` is IndexError -/
+def pyIndex {α : Type} (l : List α) (i : Int) : Option α :=
+  if 0 ≤ i then l[i.toNat]?
+  else if (-i).toNat ≤ l.length then l[l.length - (-i).toNat]? else none
+
+/-- `ascii_letters[atom.part.n]` (52 letters, negative indices wrap) does not raise -/
+def nameOk (part : Int) : Bool := decide (-52 ≤ part) && decide (part ≤ 51)
+
+/-- the atom `packer` builds with `set_atom_parameters` -/
+def mkImage (ker : Kernel K) (op : Op K) (h k l : Int) (a : Atom K) : Atom K :=
+  { a with pos := shift ker (applyOp ker op a.pos) h k l, symmgen := true, mol := 0 }
+
+/-- the inner `for atom in showatoms` loop: `isthere` -/
+def isThere (ker : Kernel K) (shown : List (Atom K)) (na : Atom K) : Bool :=
+  decide (na.part ≥ 0) &&
+    shown.any fun b => decide (b.part = na.part) &&
+      decide (ker.vlen (na.pos.x - b.pos.x) (na.pos.y - b.pos.y) (na.pos.z - b.pos.z) < ker.dupLim)
+
+/-- body of `for atom in asymm` for one entry of `need_symm`; `none` = the IndexError the code would raise -/
+def packAtom (ker : Kernel K) (ops : List (Op K)) (withQ : Bool) (e : Need) (shown : List (Atom K)) (a : Atom K) :
+    Option (List (Atom K)) :=
+  if !withQ && a.qpeak then some shown
+  else if a.mol = e.group then
+    if a.qpeak then some shown
+    else if !nameOk a.part then none
+    else match pyIndex ops (e.n - 1) with
+      | none => none
+      | some op =>
+        let na := mkImage ker op (e.h - 5) (e.k - 5) (e.l - 5) a
+        if isThere ker shown na then some shown else some (shown ++ [na])
+  else some shown
+
+def packEntry (ker : Kernel K) (ops : List (Op K)) (withQ : Bool) (asymm : List (Atom K)) (shown : List (Atom K)) (e : Need) :
+    Option (List (Atom K)) :=
+  asymm.foldlM (packAtom ker ops withQ e) shown
+
+/-- `showatoms` before the loop -/
+def shownOriginals (withQ : Bool) (asymm : List (Atom K)) : List (Atom K) :=
+  if withQ then asymm else asymm.filter fun a => !a.qpeak
+
+/-- `SDM.packer` -/
+def packer (ker : Kernel K) (ops : List (Op K)) (asymm : List (Atom K)) (need : List Need) (withQ : Bool) :
+    Option (List (Atom K)) :=
+  need.foldlM (packEntry ker ops withQ asymm) (shownOriginals withQ asymm)
+
+/-- wrapped difference used by `collect_needed_symmetry`: `(floor_d, dp)` -/
+def wrapDiff (ker : Kernel K) (prime q : V3 K) : V3 Int × V3 K :=
+  let dx := prime.x - q.x + ker.half
+  let dy := prime.y - q.y + ker.half
+  let dz := prime.z - q.z + ker.half
+  let fl : V3 Int := ⟨ker.floor dx, ker.floor dy, ker.floor dz⟩
+  (fl, ⟨dx - ker.ofInt fl.x - ker.half, dy - ker.ofInt fl.y - ker.half, dz - ker.ofInt fl.z - ker.half⟩)
+
+/-- the tests of `collect_needed_symmetry` that do not depend on the operator -/
+def itemActive (ker : Kernel K) (it : SdmItem K) : Bool :=
+  it.covalent && !(decide (it.atom1.mol < ker.molLow) || (match ker.molLimit with | some m => decide (it.atom1.mol > m) | none => false))
+
+def partsClash (it : SdmItem K) : Bool :=
+  decide (it.atom1.part ≠ 0) && decide (it.atom2.part ≠ 0) && decide (it.atom1.part ≠ it.atom2.part)
+
+def sameHydrogen (it : SdmItem K) : Bool := decide (it.atom1.an = it.atom2.an) && it.atom1.isH
+
+/-- the entry one (item, operator n) pair contributes, if any -/
+def candidate (ker : Kernel K) (it : SdmItem K) (n : Nat) (op : Op K) : Option Need :=
+  if partsClash it then none
+  else if sameHydrogen it then none
+  else
+    let w := wrapDiff ker (applyOp ker op it.atom1.pos) it.atom2.pos
+    if n = 0 ∧ w.1 = ⟨0, 0, 0⟩ then none
+    else
+      let dk := ker.vlen w.2.x w.2.y w.2.z
+      let dddd := if it.atom1.isH && it.atom2.isH then ker.hh else it.dist + ker.window
+      if dk > ker.eps ∧ dddd ≥ dk then some ⟨(n : Int) + 1, 5 - w.1.x, 5 - w.1.y, 5 - w.1.z, it.atom1.mol⟩
+      else none
+
+def addNeed (need : List Need) (c : Option Need) : List Need :=
+  match c with
+  | none => need
+  | some bs => if bs ∈ need then need else need ++ [bs]
+
+def collectOps (ker : Kernel K) (it : SdmItem K) : List (Op K) → Nat → List Need → List Need
+  | [], _, need => need
+  | op :: rest, n, need => collectOps ker it rest (n + 1) (addNeed need (candidate ker it n op))
+
+def collectItem (ker : Kernel K) (ops : List (Op K)) (need : List Need) (it : SdmItem K) : List Need :=
+  if itemActive ker it then collectOps ker it ops 0 need else need
+
+/-- `SDM.collect_needed_symmetry` -/
+def collectNeeded (ker : Kernel K) (ops : List (Op K)) (sdm : List (SdmItem K)) : List Need :=
+  sdm.foldl (collectItem ker ops) []
+
+/-- `Shelxfile.grow` given the SDM items -/
+def grow (ker : Kernel K) (ops : List (Op K)) (asymm : List (Atom K)) (sdm : List (SdmItem K)) (withQ : Bool) :
+    Option (List (Atom K)) :=
+  packer ker ops asymm (collectNeeded ker ops sdm) withQ
+
+/-! ### Specification -/
+
+/-- `a` is the exact image of `o` under `op` plus the integer translation `(h, k, l)`, with the same element,
+    PART, occupation code and displacement parameters, flagged as symmetry generated -/
+def IsImageOf (ker : Kernel K) (op : Op K) (h k l : Int) (o a : Atom K) : Prop :=
+  a.pos = shift ker (applyOp ker op o.pos) h k l ∧ a.sfac = o.sfac ∧ a.part = o.part ∧ a.sof = o.sof ∧ a.u = o.u ∧
+    a.src = o.src ∧ a.symmgen = true ∧ a.qpeak = false
+
+/-- two atoms of the same PART coincide (closer than the duplicate distance), `b` measured from `a` -/
+def Coincide (ker : Kernel K) (a b : Atom K) : Prop :=
+  a.part = b.part ∧ ker.vlen (b.pos.x - a.pos.x) (b.pos.y - a.pos.y) (b.pos.z - a.pos.z) < ker.dupLim
+
+instance (ker : Kernel K) (a b : Atom K) : Decidable (Coincide ker a b) := by
+  unfold Coincide; infer_instance
+
+/-- the image of `o` is in the result, or (PART >= 0) an atom of its PART already sits within the duplicate distance -/
+def imagePresent (ker : Kernel K) (res : List (Atom K)) (na : Atom K) : Prop :=
+  na ∈ res ∨ (0 ≤ na.part ∧ ∃ b ∈ res, Coincide ker b na)
+
+end
+
+/-! ### executable spec checks (driver: the model's own output must satisfy them) -/
+
+section
+variable {K : Type} [Add K] [Sub K] [Mul K] [LT K] [LE K] [DecidableLT K] [DecidableLE K] [BEq K]
+
+def atomSame (a b : Atom K) : Bool :=
+  a.src == b.src && a.sfac == b.sfac && a.pos == b.pos && a.part == b.part && a.sof == b.sof && a.u == b.u &&
+    a.qpeak == b.qpeak && a.symmgen == b.symmgen
+
+def checkPrefix (withQ : Bool) (asymm res : List (Atom K)) : Bool :=
+  let s := shownOriginals withQ asymm
+  s.length ≤ res.length && (s.zip res).all fun p => atomSame p.1 p.2
+
+def checkImages (ker : Kernel K) (ops : List (Op K)) (need : List Need) (withQ : Bool) (asymm res : List (Atom K)) : Bool :=
+  (res.drop (shownOriginals withQ asymm).length).all fun a =>
+    asymm.any fun o => !o.qpeak && ops.any fun op => need.any fun e =>
+      a.pos == shift ker (applyOp ker op o.pos) (e.h - 5) (e.k - 5) (e.l - 5) && a.sfac == o.sfac && a.part == o.part &&
+        a.sof == o.sof && a.u == o.u && a.symmgen
+
+def checkNoCoincide (ker : Kernel K) (nOrig : Nat) (res : List (Atom K)) : Bool :=
+  let idx := List.range res.length
+  idx.all fun j => decide (j < nOrig) || idx.all fun i => decide (j ≤ i) ||
+    match res[i]?, res[j]? with
+    | some a, some b => !(decide (a.part = b.part) && decide (0 ≤ b.part) &&
+        decide (ker.vlen (b.pos.x - a.pos.x) (b.pos.y - a.pos.y) (b.pos.z - a.pos.z) < ker.dupLim))
+    | _, _ => true
+
+end
 
 end Shelx.C14
